@@ -383,7 +383,8 @@ def main():
 
 
 def verdict(prop, tier, seed, pdef, results, extra, wall):
-    os.makedirs(os.path.join(VERIF, 'evidence'), exist_ok=True)
+    evdir = os.environ.get('VERIF_EVIDENCE_DIR') or os.path.join(VERIF, 'evidence')
+    os.makedirs(evdir, exist_ok=True)
     os.makedirs(os.path.join(VERIF, 'replay'), exist_ok=True)
     known = load_known()
     obligations = 0
@@ -496,7 +497,7 @@ def verdict(prop, tier, seed, pdef, results, extra, wall):
             for u in undecided:
                 lines.append('UNDECIDED property=%s %s' % (prop, u))
     ev['coverage']['undecided'] = undecided
-    json.dump(ev, open(os.path.join(VERIF, 'evidence', prop + '.json'), 'w'), indent=1)
+    json.dump(ev, open(os.path.join(evdir, prop + '.json'), 'w'), indent=1)
     for ln in lines:
         print(ln)
     if rc == 0:
